@@ -1174,7 +1174,7 @@ func (c *Ctx) convert(st *State, in ssa.Instruction, v Value, from, to types.Typ
 			t := v.(*Term)
 			if isNum(t) {
 				var r rune
-				if t.Sort.Kind == SBV {
+				if t.Sort.Kind == SBV && !isUnsigned(from) {
 					r = rune(bvSigned(t.Val, t.Sort.Bits).Int64())
 				} else {
 					r = rune(t.Val.Int64())
@@ -1236,7 +1236,23 @@ func (c *Ctx) bytesToString(st *State, sl SliceV) Value {
 	return StrV{Arr: arr, Off: sl.Off, Len: sl.Len}
 }
 
+// resolveStr picks the branch of a conditional string that the path condition already decides.
+func (c *Ctx) resolveStr(st *State, s StrV) StrV {
+	for s.Spec == "ite" {
+		cond := s.SArgs[0].(*Term)
+		if st.pcKnows(cond) {
+			s = s.SArgs[1].(StrV)
+		} else if st.pcKnows(Not(cond)) {
+			s = s.SArgs[2].(StrV)
+		} else {
+			break
+		}
+	}
+	return s
+}
+
 func (c *Ctx) stringToSlice(st *State, s StrV, elem types.Type) Value {
+	s = c.resolveStr(st, s)
 	if intBits(elem) != 8 {
 		if s.Conc != nil {
 			rs := []rune(*s.Conc)
@@ -1391,7 +1407,12 @@ func (c *Ctx) sliceOp(st *State, x *ssa.Slice) Value {
 		}
 		c.safety(st, x, "slice-bounds", And(Cmp("<=", z, lo, true), Cmp("<=", lo, hi, true), Cmp("<=", hi, cp, true), Cmp("<=", cp, c.idx(int64(b.CCap)), true)))
 		if !isNum(lo) || !isNum(hi) || !isNum(cp) {
-			unsupported("symbolic bounds on concrete slice")
+			// symbolic bounds: continue on a heap copy (aliasing with the concrete array is given up; recorded)
+			if b.Obj == nil || mx != nil {
+				unsupported("symbolic bounds on concrete slice")
+			}
+			hb := c.toHeapSlice(st, b, b.Elem)
+			return SliceV{Elem: b.Elem, Heap: true, Ref: hb.Ref, Off: Arith("+", hb.Off, lo), Len: Arith("-", hi, lo), Cap: Arith("-", hb.Cap, lo)}
 		}
 		l, h, m := c.constIdx(lo), c.constIdx(hi), c.constIdx(cp)
 		if l < 0 || l > h || h > m || m > b.CCap {
